@@ -31,6 +31,10 @@ def make_state(eng, ctx):
         # no water-level value on the grid at all: classify refuses such a dataset with an
         # explicit ValueError('No valid data intervals found'); stated as outside C01
         raise symx.PathAbort('no water level on the grid')
+    for b in ctx.get('brk', ()):
+        # a gap between two neighbouring valid instants that swallows no grid instant
+        if not (valid[b] and valid[b + 1]):
+            raise symx.PathAbort('break between instants that are not both valid')
     gaps = sum(1 for i in range(1, G + 1) if valid[i - 1] and not valid[i])
     if gaps > max_gaps:
         raise symx.PathAbort('more gaps than the bound')
@@ -46,14 +50,14 @@ def make_state(eng, ctx):
     return epochs, valid, rain, et, zeta, thr_rain, thr_jump
 
 
-def stretches(valid, G):
+def stretches(valid, G, brk=()):
     """[(first, last)] sample indices (with rain and level rows) of each stretch."""
     out = []
     i = 0
     while i <= G:
         if valid[i]:
             j = i
-            while j + 1 <= G and valid[j + 1]:
+            while j + 1 <= G and valid[j + 1] and j not in brk:
                 j += 1
             out.append((i, min(j, G - 1)) if i <= G - 1 else (i, i - 1))
             i = j + 1
@@ -70,7 +74,7 @@ def harness(eng, ctx):
     cl = loader.load('spowtd.classify', 'R')
     epochs, valid, rain, et, zeta, thr_rain, thr_jump = make_state(eng, ctx)
     conn = symsql.Connection()
-    dbstate.build(conn, epochs, valid, rain, et, zeta, step)
+    dbstate.build(conn, epochs, valid, rain, et, zeta, step, brk=ctx.get('brk', ()))
     try:
         cl.classify_intervals(conn, thr_rain, thr_jump)
     except Exception as e:
@@ -86,7 +90,7 @@ def harness(eng, ctx):
     inters = [(idx[int(r['start_epoch'])], idx[int(r['thru_epoch'])]) for r in db.tables['zeta_interval'].rows
               if r['interval_type'] == 'interstorm']
     pairs = [(idx[int(r['interval_start_epoch'])], idx[int(r['storm_start_epoch'])]) for r in db.tables['zeta_interval_storm'].rows]
-    stre = stretches(valid, G)
+    stre = stretches(valid, G, ctx.get('brk', ()))
 
     def stretch_of(i):
         return next((k for k, (a, b) in enumerate(stre) if a <= i <= b), None)
@@ -188,7 +192,7 @@ def concrete_state(ctx, m):
 def replay_cli(ctx, m, expect=None):
     """`spowtd load` + `spowtd classify` of the real code on files generated from a model."""
     epochs, valid, rain, et, zeta, tr, tj = concrete_state(ctx, m)
-    texts = dbstate.texts_for(epochs, valid, rain, et, zeta, ctx['step_s'])
+    texts = dbstate.texts_for(epochs, valid, rain, et, zeta, ctx['step_s'], brk=ctx.get('brk', ()))
     info = {'valid': valid, 'rain_mm_h': [float(v) for v in rain], 'zeta_mm': [float(v) for v in zeta],
             'thresholds': [float(tr), float(tj)], 'step_s': ctx['step_s'],
             'commands': ['spowtd load', 'spowtd classify -s %r -j %r' % (float(tr), float(tj))]}
@@ -245,7 +249,7 @@ def concrete_db_oracle(ctx, m, info):
     epochs, valid, rain, et, zeta, tr, tj = concrete_state(ctx, m)
     G = ctx['G']
     step_h = Fraction(ctx['step_s'], 3600)
-    stre = stretches(valid, G)
+    stre = stretches(valid, G, ctx.get('brk', ()))
     bad = []
     storms = info['real']['storms']
     rises = info['real']['rises']
